@@ -24,7 +24,7 @@ func init() {
 		Explain: "Malformed, unsupported or tampered hash files never authenticate — structural part: (C02.1) UserHash.Authenticate can return true only as hasher.Check(password, field 4) for hasher = Params[parameter-set id] ≠ nil with GetFormatID()==algorithm field, all read by one readHashStr of getFilename(Exists' admin flag); each Check can return true only under subtle.ConstantTimeCompare(<unsliced KDF output>, <unsliced decoded digest>)==1; (C02.2) every parse step's failure leaves: readHashStr returns err==nil only under 4 fields ∧ ParseInt ok ∧ ParseUint ok with results taken from the right positions; the base64 decoders only under 2 parts and both decodes ok, returning (digest, salt) from parts (1, 0); ok ⇒ err==nil everywhere (C04.3); (C02.3) no crash on the parse path: every unproven bounds check the compiler reports in module code is in the hand-discharged table and none lies in the record parser; every method call on a Params[...] lookup is under != nil; the KDFs' panic preconditions are excluded at construction; (C02.4) schema rules for unsupported hashes: isFormatSupported(Full) report supported only for a configured set with matching algorithm and IsValid (non-empty decodable salt and digest); List inserts only under valid ∧ supported, ListFull inserts every entry with the flags of the same call; Exists is format-blind; Remove is unconditional; (C02.5) all base64 sites of the hashers use URLEncoding.",
 		Undec:   []string{"'never a hang' (bounded only by file size)", "the verdict for each individual byte string; the round trip with an independent implementation as such", "numeric edge cases inside strconv / base64 (trusted)"},
 		Run:     runC02,
-		Floors:  map[string]int{"C02.1": 4, "C02.2": 3, "C02.3": 3, "C02.4": 5, "C02.5": 8},
+		Floors:  map[string]int{"C02.1": 4, "C02.2": 3, "C02.3": 3, "C02.4": 5, "C02.5": 5},
 	})
 }
 
@@ -124,7 +124,7 @@ func c021(c *an.Ctx, p *an.Prog, rule string) {
 			if !ret.Args[0].IsConst("true") {
 				bad = append(bad, "verdict is not a constant decided by the comparison: "+ret.Args[0].K)
 			}
-			bad = append(bad, ctCompareFacts(s, "golang.org/x/crypto/argon2.IDKey", storePkg+".argon2IDDecodeBase64", 0)...)
+			bad = append(bad, ctCompareFacts(s, "golang.org/x/crypto/argon2.IDKey", s.T(ck.Params[2]))...)
 		})
 		c.Check(len(bad) == 0 && nTrue > 0, rule, fnKey(ck)+"|full-constant-time-compare", p.Pos(ck.Pos()), "true only under ConstantTimeCompare(IDKey(...), decoded digest)==1, both unsliced", strings.Join(uniqS(bad), "; "))
 	}
@@ -192,28 +192,30 @@ func c021(c *an.Ctx, p *an.Prog, rule string) {
 				bad = append(bad, "verdict is not scryptauth's Check result: "+ret.Args[0].K)
 				return
 			}
-			dc, _ := cc.Args[1].CallOf()
-			if dc == nil || dc.Aux != storePkg+".scryptAuthDecodeBase64" || !callErrNil(s, dc) {
-				bad = append(bad, "digest is not the checked result of scryptAuthDecodeBase64")
+			digest, salt, why := decodedRecord(s, s.T(ck.Params[2]))
+			if why != "" {
+				bad = append(bad, "digest is not the checked result of decoding the hash string parameter: "+why)
 				return
 			}
-			if cc.Args[1].K != extractOf(dc, 0).K || cc.Args[3].K != extractOf(dc, 1).K {
-				bad = append(bad, "Check(hash, password, salt) is not given (decoded #0, ·, decoded #1)")
+			if cc.Args[1].K != digest.K || cc.Args[3].K != salt.K {
+				bad = append(bad, "Check(hash, password, salt) is not given (decoded digest, ·, decoded salt)")
 			}
 			if cc.Args[2].StripConv().K != s.T(ck.Params[1]).K {
 				bad = append(bad, "password operand is "+cc.Args[2].K)
-			}
-			if dc.Args[0].K != s.T(ck.Params[2]).K {
-				bad = append(bad, "decoder is not applied to the hash string parameter")
 			}
 		})
 		c.Check(len(bad) == 0 && n > 0, rule, fnKey(ck)+"|delegation", p.Pos(ck.Pos()), "delegates to scryptauth Check(decoded digest, []byte(password), decoded salt) after a successful decode", strings.Join(uniqS(bad), "; "))
 	}
 }
 
-// ctCompareFacts: the path has ConstantTimeCompare(kdf(...), decoded#digestIdx) == 1 with both operands whole.
-func ctCompareFacts(s *an.PathState, kdf, decoder string, digestIdx int) []string {
+// ctCompareFacts: the path has ConstantTimeCompare(kdf(password, decoded salt, …), decoded digest) == 1 with both
+// operands whole, for the record decoded from hashStr.
+func ctCompareFacts(s *an.PathState, kdf string, hashStr *an.Term) []string {
 	var bad []string
+	digest, salt, why := decodedRecord(s, hashStr)
+	if why != "" {
+		return []string{"true without a successfully decoded record: " + why + " (path " + s.BlockPath() + ")"}
+	}
 	ok := false
 	for _, a := range s.Atoms {
 		cc, _ := a.A.CallOf()
@@ -226,13 +228,9 @@ func ctCompareFacts(s *an.PathState, kdf, decoder string, digestIdx int) []strin
 		x, y := cc.Args[0], cc.Args[1]
 		for _, pr := range [][2]*an.Term{{x, y}, {y, x}} {
 			k, _ := pr[0].CallOf()
-			d, i := pr[1].CallOf()
-			if k != nil && pr[0].Op == "call" && k.Aux == kdf && d != nil && d.Aux == decoder && i == digestIdx {
-				if !callErrNil(s, d) {
-					bad = append(bad, "decoded digest used although decoding may have failed")
-				}
-				// salt operand of the KDF is the decoder's other result
-				if sd, j := k.Args[1].CallOf(); sd == nil || sd.K != d.K || j != 1-digestIdx {
+			if k != nil && pr[0].Op == "call" && k.Aux == kdf && pr[1].K == digest.K {
+				// salt operand of the KDF is the decoded salt of the same record
+				if k.Args[1].K != salt.K {
 					bad = append(bad, "KDF salt is not the decoded salt of the same record")
 				}
 				ok = true
@@ -324,7 +322,24 @@ func c022(c *an.Ctx, p *an.Prog) {
 	}
 	for _, name := range []string{"argon2IDDecodeBase64", "scryptAuthDecodeBase64"} {
 		fn := p.Func("/store", name)
-		if !need(c, "C02.2", fn, "store."+name) {
+		if fn == nil {
+			// no decoder of this shape: the decoding is written out (or sits in a helper interpreted inline) where the
+			// record is used; its guards are then decided there (decodedRecord in C02.1 / C02.4)
+			typ := map[string]string{"argon2IDDecodeBase64": "Argon2IDHasher", "scryptAuthDecodeBase64": "ScryptAuthHasher"}[name]
+			ck := p.Method("/store", typ, "Check")
+			nDec := 0
+			if ck != nil {
+				for _, in := range an.DeepInstrs(ck) {
+					if ci, ok := in.(ssa.CallInstruction); ok && an.CalleeName(ci) == "(*encoding/base64.Encoding).DecodeString" {
+						nDec++
+					}
+				}
+			}
+			if nDec >= 1 {
+				c.OK("C02.2", "store."+name+"|parse-guards", p.Pos(ck.Pos()), fmt.Sprintf("no separate decoder: %s.Check decodes the record itself (%d decode sites seen through inlining); guards decided by C02.1/C02.4", typ, nDec))
+			} else {
+				need(c, "C02.2", fn, "store."+name)
+			}
 			continue
 		}
 		var bad []string
@@ -737,21 +752,16 @@ func c024(c *an.Ctx, p *an.Prog) {
 				return
 			}
 			n++
-			var dc *an.Term
-			for _, e := range s.Events {
-				if e.Kind == "call" && strings.HasSuffix(e.Callee, "DecodeBase64") {
-					dc = e.Res
-				}
-			}
-			if dc == nil || !callErrNil(s, dc) || dc.Args[0].K != s.T(fn.Params[1]).K {
+			digest, salt, why := decodedRecord(s, s.T(fn.Params[1]))
+			if why != "" {
 				bad = append(bad, "valid without a successful decode of the hash string")
 				return
 			}
-			for i := 0; i < 2; i++ {
+			for i, part := range []*an.Term{digest, salt} {
 				ok := false
 				for _, a := range s.Atoms {
-					if a.Op == "!=" && a.B.IsConst("0") && a.A.IsCallTo("builtin len") {
-						if lc, _ := a.A.CallOf(); lc.Args[0].K == extractOf(dc, i).K {
+					if a.B != nil && a.A.IsCallTo("builtin len") && (a.Op == "!=" && a.B.IsConst("0") || a.Op == ">" && a.B.IsConst("0")) {
+						if lc, _ := a.A.CallOf(); lc.Args[0].K == part.K {
 							ok = true
 						}
 					}
@@ -897,8 +907,8 @@ func c025(c *an.Ctx, p *an.Prog, rule string) {
 			}
 		}
 	}
-	if n < 9 {
-		c.Undecided(rule, "base64-sites", "-", fmt.Sprintf("VACUOUS: %d base64 sites, confirmed floor 9 (8 record + 1 key)", n))
+	if n < 5 {
+		c.Undecided(rule, "base64-sites", "-", fmt.Sprintf("VACUOUS: %d base64 sites; at least 2 encode + 2 decode sites for the record fields and the HMAC key are needed", n))
 	}
 	_ = sort.Strings
 }
@@ -931,4 +941,39 @@ func astFnName(f *ssa.Function) string {
 		}
 	}
 	return pk + "." + f.Name()
+}
+
+// decodedRecord finds, on this path, the decoded (digest, salt) of the hash string hashStr: either the results of one
+// of the pinned decoders (checked on their own by C02.2), or — when the decoding is written out or lives in a helper
+// interpreted inline — two URL-base64 DecodeString results of the pieces after / before the ':' (errors nil).
+func decodedRecord(s *an.PathState, hashStr *an.Term) (digest, salt *an.Term, why string) {
+	for _, e := range s.Events {
+		if e.Kind == "call" && strings.HasSuffix(e.Callee, "DecodeBase64") && len(e.Args) == 1 && e.Args[0].K == hashStr.K {
+			if !callErrNil(s, e.Res) {
+				return nil, nil, "decoded record used although decoding may have failed"
+			}
+			return extractOf(e.Res, 0), extractOf(e.Res, 1), ""
+		}
+	}
+	var parts [2]*an.Term
+	for _, e := range s.Events {
+		if e.Kind != "call" || e.Callee != "(*encoding/base64.Encoding).DecodeString" {
+			continue
+		}
+		f, ok := splitField(s, e.Args[1])
+		if !ok || f.Base == nil || f.Base.K != hashStr.K || f.Sep != ":" || f.N != 2 || f.Idx > 1 {
+			continue
+		}
+		if !strings.Contains(e.Args[0].K, "base64.URLEncoding") {
+			return nil, nil, "record field decoded with an encoding other than base64.URLEncoding"
+		}
+		if !extractNil(s, e.Res, 1) {
+			continue
+		}
+		parts[f.Idx] = extractOf(e.Res, 0)
+	}
+	if parts[0] == nil || parts[1] == nil {
+		return nil, nil, "no successful decode of both pieces of the hash string"
+	}
+	return parts[1], parts[0], "" // on disk: salt first, digest second
 }
